@@ -23,7 +23,7 @@ def c09(tier):
                max_total_items=13, root_kinds=["Array"])
     jobs.append(_dj("C09", "CoseRecipient", dict(sib, root_lens=[4], max_total_items=12), tag=":siblings"))
     jobs.append(_dj("C09", "CoseSign", dict(sib, root_lens=[4], max_total_items=12), tag=":siblings"))
-    jobs.append(_spine("C09", tier))
+    jobs += _spines("C09", tier)
     return jobs
 
 
@@ -31,6 +31,12 @@ def _spine(prop, tier):
     """Counter-signature nesting spines, one level at a time up to 12 (16) levels, through protected
     and unprotected headers, bare and list form."""
     return ("jobs_misc", "spine_job", dict(prop=prop, max_level=12 if tier == "quick" else 16))
+
+
+def _spines(prop, tier):
+    """the spine hanging off a COSE_Sign1, a standalone COSE_Signature and the signer of a COSE_Sign"""
+    return [("jobs_misc", "spine_job", dict(prop=prop, max_level=12 if tier == "quick" else 16, root_ty=r))
+            for r in ("CoseSign1", "CoseSignature", "CoseSign")]
 
 
 def _heads(prop, tier):
@@ -60,7 +66,11 @@ def c08(tier):
         hdr = dict(max_array=3, max_map=3, max_text=3, max_depth=5, max_total_entries=3, max_total_items=4)
         car = dict(max_array=4, max_nested_array=4, max_map=2, max_text=2, max_depth=6, max_total_entries=2,
                    max_total_items=8)
-    return [_dj("C08", "Header", hdr), _dj("C08", "CoseEncrypt0", car, tag=":carrier")]
+    # three entries with scalar values and text labels of <= 2 bytes: which labels count as repeated
+    # (and in which wire order the extras are kept) when the third entry meets the first two
+    three = dict(max_array=1, max_map=3, max_text=2, max_depth=2, max_total_entries=3, max_total_items=1, map_lens=[3],
+                 map_key_kinds=["Integer", "Text"], map_value_kinds=["Integer", "Bytes"])
+    return [_dj("C08", "Header", hdr), _dj("C08", "Header", three, tag=":three"), _dj("C08", "CoseEncrypt0", car, tag=":carrier")]
 
 
 def c10(tier):
@@ -147,8 +157,10 @@ def c18(tier):
                    max_total_items=16)
     sub = dict(max_array=5, max_nested_array=3, max_map=1, max_text=1, max_depth=4, max_total_entries=1,
                max_total_items=8)
-    return [_dj("C18", "ClaimsSet", cl), _dj("C18", "CoseKdfContext", kdf), _dj("C18", "PartyInfo", sub),
-            _dj("C18", "SuppPubInfo", sub)]
+    three = dict(max_array=1, max_map=3, max_text=1, max_depth=2, max_total_entries=3, max_total_items=1, map_lens=[3],
+                 map_key_kinds=["Integer", "Text"], map_value_kinds=["Integer", "Bytes"])
+    return [_dj("C18", "ClaimsSet", cl), _dj("C18", "ClaimsSet", three, tag=":three"), _dj("C18", "CoseKdfContext", kdf),
+            _dj("C18", "PartyInfo", sub), _dj("C18", "SuppPubInfo", sub)]
 
 
 def _sj(prop, tname, pol, built=False):
@@ -201,15 +213,19 @@ def c05(tier):
 
 
 def c06(tier):
+    # COSE_Sign with signature templates that were themselves decoded from the wire (their protected
+    # headers keep arbitrary retained bytes)
+    tmpl = ("jobs_struct", "history_job", dict(prop="C06", tname="CoseSign", steps=2 if tier == "quick" else 3, palette=(0, 3),
+                                               wire_template=True))
     if tier == "quick":
         return [("jobs_struct", "history_job", dict(prop="C06", tname=t, steps=3, palette=(0, 3)))
-                for t in ("CoseSign1", "CoseSign", "CoseMac0", "CoseMac", "CoseEncrypt0", "CoseEncrypt", "CoseRecipient")]
+                for t in ("CoseSign1", "CoseSign", "CoseMac0", "CoseMac", "CoseEncrypt0", "CoseEncrypt", "CoseRecipient")] + [tmpl]
     # thorough: the full header palette at three calls, and four calls for the single-layer builders
     jobs = [("jobs_struct", "history_job", dict(prop="C06", tname=t, steps=3, palette=(0, 1, 2, 3)))
             for t in ("CoseSign1", "CoseSign", "CoseMac", "CoseEncrypt", "CoseRecipient")]
     jobs += [("jobs_struct", "history_job", dict(prop="C06", tname=t, steps=4, palette=(0, 3)))
              for t in ("CoseSign1", "CoseMac0", "CoseEncrypt0")]
-    return jobs
+    return jobs + [tmpl]
 
 
 ALL_TYPES = STRUCTS + ["Header", "CoseKey", "CoseKeySet", "ClaimsSet", "PartyInfo", "SuppPubInfo", "CoseKdfContext"]
@@ -240,7 +256,7 @@ def _rj(prop, t, tier, built=False):
 
 
 def c07(tier):
-    return [_rj("C07", t, tier) for t in ALL_TYPES] + [_spine("C07", tier)]
+    return [_rj("C07", t, tier) for t in ALL_TYPES] + _spines("C07", tier)
 
 
 def c02(tier):
@@ -263,6 +279,7 @@ def c11(tier):
     jobs.append(_rj("C11", "CoseKdfContext", tier, built=False))
     jobs += [("jobs_encode", "encode_job", dict(prop="C11", tname=t, n_extra=n, dups_in_scope=False))
              for t in ("Header", "CoseKey", "ClaimsSet")]
+    jobs += _spines("C11", tier)      # "decoding that output returns the original value" along nesting spines
     return jobs
 
 
@@ -336,7 +353,7 @@ def c01(tier):
         jobs.append(_sj("C01", t, _struct_pol(tier, top), False))
     lv = [1, 2, 4, 8, 16, 32] if tier == "quick" else [1, 2, 4, 8, 16, 32, 64, 128]
     jobs.append(("jobs_misc", "depth_job", dict(prop="C01", levels=lv, native_levels=2000)))
-    jobs.append(_spine("C01", tier))
+    jobs += _spines("C01", tier)
     return jobs
 
 
